@@ -106,7 +106,7 @@ class Solver:
             self.send("(get-value (" + " ".join(values) + "))")
             self.send(f'(echo "{m2}")')
             self.proc.stdin.flush()
-            out2, ok2 = self.read_until(m2, time.time() + 30)
+            out2, ok2 = self.read_until(m2, time.time() + 120)
             txt = "\n".join(out2)
             if not ok2 or "(error" in txt:
                 status = "error"
